@@ -244,4 +244,272 @@ theorem AF_pack_eq (a : AF) (h : AF_WF a) : AF.pack a = (AF_packed a, .ok (AF_by
     simp only [hlb, p2]
     simp [AF_packed, AF_bytes, AF_extb, hxx]
 
+theorem read_u8 (f : Fmt) (hf : f = ⟨true, [.u8]⟩) (pre rest : Bytes) (n : Nat) (h : n < 256) (off : Nat)
+    (hoff : off = pre.length) :
+    structUnpackFrom f (pre ++ (encInt true 1 n ++ rest)) off = .ok [n] := by
+  subst hf
+  have hfit : Fits (⟨true, [.u8]⟩ : Fmt).codes [n] := by simp [Fits, Code.bound]; omega
+  have := structUnpackFrom_enc ⟨true, [.u8]⟩ [n] pre rest hfit off hoff
+  simpa [encCodes, Code.size] using this
+
+theorem AF_spl_length (a : AF) : (AF_spl a).length = if 0 < a.splice_countdown then 1 else 0 := by
+  unfold AF_spl; split <;> simp
+theorem AF_tl_length (a : AF) : (AF_tl a).length = if 0 < a.private_data.length then 1 else 0 := by
+  unfold AF_tl; split <;> simp
+
+def AF_hdr (a : AF) : Bytes := encInt true 1 (AF_lenByte a) ++ encInt true 1 (AF_flagsByte a)
+@[simp] theorem AF_hdr_length (a : AF) : (AF_hdr a).length = 2 := by simp [AF_hdr]
+
+/-- decoding the packed adaptation field (followed by anything) into an object in any state -/
+theorem AF_unpack_bytes (a t : AF) (rest : Bytes) (h : AF_WF a) :
+    AF.unpack t (AF_bytes a ++ rest) = (AF_packed a, .ok ()) := by
+  obtain ⟨hp, ho, hs, hd, hx, f1, f2, f3, f4, f5, hlen⟩ := h
+  have hfl := AF_flagsByte_lt a
+  obtain ⟨b7, b6, b5, b4, b3, b2, b1, b0, _⟩ := flag_bits a.discontinutiy a.random_access a.es_priority
+    (decide (0 < a.pcr.length)) (decide (0 < a.opcr.length)) (decide (0 < a.splice_countdown))
+    (decide (0 < a.private_data.length)) a.adaption_extension.isSome
+  have hfb : AF_flagsByte a = a.discontinutiy.toNat * 128 + a.random_access.toNat * 64 + a.es_priority.toNat * 32 +
+        (decide (0 < a.pcr.length)).toNat * 16 + (decide (0 < a.opcr.length)).toNat * 8 +
+        (decide (0 < a.splice_countdown)).toNat * 4 + (decide (0 < a.private_data.length)).toNat * 2 +
+        a.adaption_extension.isSome.toNat := rfl
+  rw [← hfb] at b7 b6 b5 b4 b3 b2 b1 b0
+  -- the buffer, with the tail after the private data folded
+  generalize hT : AF_extb a ++ (List.replicate (AF_lenByte a - AF_dataLen a) (0xFF : UInt8) ++ rest) = T
+  have hB : AF_bytes a ++ rest = AF_hdr a ++ (a.pcr ++ (a.opcr ++ (AF_spl a ++ (AF_tl a ++ (a.private_data ++ T))))) := by
+    simp only [AF_bytes, AF_hdr, List.append_assoc, ← hT]
+  rw [hB]
+  have h0 : structUnpackFrom AF_unpack_fmt0 (AF_hdr a ++ (a.pcr ++ (a.opcr ++ (AF_spl a ++ (AF_tl a ++ (a.private_data ++ T)))))) 0
+      = .ok [AF_lenByte a, AF_flagsByte a] := by
+    have hfit : Fits AF_unpack_fmt0.codes [AF_lenByte a, AF_flagsByte a] := by
+      simp [Fits, AF_unpack_fmt0, Code.bound]; omega
+    have := structUnpackFrom_enc0 AF_unpack_fmt0 [AF_lenByte a, AF_flagsByte a]
+      (a.pcr ++ (a.opcr ++ (AF_spl a ++ (AF_tl a ++ (a.private_data ++ T))))) hfit
+    simpa [encCodes, AF_unpack_fmt0, Code.size, AF_hdr, List.append_assoc] using this
+  -- offsets
+  have o1 : (if decide (0 < a.pcr.length) = true then 8 else 2) = 2 + a.pcr.length := by
+    rcases hp with hp | hp <;> simp [hp]
+  have o2 : (if decide (0 < a.opcr.length) = true then 2 + a.pcr.length + 6 else 2 + a.pcr.length)
+      = 2 + a.pcr.length + a.opcr.length := by
+    rcases ho with ho | ho <;> simp [ho]
+  have o3 : (if decide (0 < a.splice_countdown) = true then 2 + a.pcr.length + a.opcr.length + 1
+      else 2 + a.pcr.length + a.opcr.length) = 2 + a.pcr.length + a.opcr.length + (AF_spl a).length := by
+    rw [AF_spl_length]; split <;> simp_all
+  -- the parts
+  have epcr : (if decide (0 < a.pcr.length) = true then
+      slice (AF_hdr a ++ (a.pcr ++ (a.opcr ++ (AF_spl a ++ (AF_tl a ++ (a.private_data ++ T)))))) 2 8 else []) = a.pcr := by
+    rcases hp with hp | hp
+    · simp [List.eq_nil_of_length_eq_zero hp]
+    · simp only [hp, show (0:Nat) < 6 by omega, decide_true, if_true]
+      exact slice_mid _ _ _ _ _ (by simp) (by simp [hp])
+  have eopcr : (if decide (0 < a.opcr.length) = true then
+      slice (AF_hdr a ++ (a.pcr ++ (a.opcr ++ (AF_spl a ++ (AF_tl a ++ (a.private_data ++ T))))))
+        (2 + a.pcr.length) (2 + a.pcr.length + 6) else []) = a.opcr := by
+    rcases ho with ho | ho
+    · simp [List.eq_nil_of_length_eq_zero ho]
+    · simp only [ho, show (0:Nat) < 6 by omega, decide_true, if_true]
+      rw [← List.append_assoc (AF_hdr a) a.pcr]
+      exact slice_mid _ _ _ _ _ (by simp) (by simp [ho])
+  have espl : (if decide (0 < a.splice_countdown) = true then
+      structUnpackFrom AF_unpack_fmt1 (AF_hdr a ++ (a.pcr ++ (a.opcr ++ (AF_spl a ++ (AF_tl a ++ (a.private_data ++ T))))))
+        (2 + a.pcr.length + a.opcr.length) else .ok [0]) = .ok [a.splice_countdown] := by
+    by_cases hsc : 0 < a.splice_countdown
+    · simp only [hsc, decide_true, if_true, AF_spl]
+      rw [← List.append_assoc (AF_hdr a) a.pcr, ← List.append_assoc (AF_hdr a ++ a.pcr) a.opcr]
+      exact read_u8 _ rfl _ _ _ hs _ (by simp <;> omega)
+    · have : a.splice_countdown = 0 := by omega
+      simp [this]
+  have etl : (if decide (0 < a.private_data.length) = true then
+      structUnpackFrom AF_unpack_fmt2 (AF_hdr a ++ (a.pcr ++ (a.opcr ++ (AF_spl a ++ (AF_tl a ++ (a.private_data ++ T))))))
+        (2 + a.pcr.length + a.opcr.length + (AF_spl a).length) else .ok [0]) = .ok [a.private_data.length] := by
+    by_cases hpd : 0 < a.private_data.length
+    · simp only [hpd, decide_true, if_true, AF_tl]
+      rw [← List.append_assoc (AF_hdr a) a.pcr, ← List.append_assoc (AF_hdr a ++ a.pcr) a.opcr,
+        ← List.append_assoc (AF_hdr a ++ a.pcr ++ a.opcr) (AF_spl a)]
+      exact read_u8 _ rfl _ _ _ hd _ (by simp <;> omega)
+    · have : a.private_data.length = 0 := by omega
+      simp [this]
+  have epd : (if decide (0 < a.private_data.length) = true then
+      slice (AF_hdr a ++ (a.pcr ++ (a.opcr ++ (AF_spl a ++ (AF_tl a ++ (a.private_data ++ T))))))
+        (2 + a.pcr.length + a.opcr.length + (AF_spl a).length + 1)
+        (2 + a.pcr.length + a.opcr.length + (AF_spl a).length + 1 + a.private_data.length) else []) = a.private_data := by
+    by_cases hpd : 0 < a.private_data.length
+    · simp only [hpd, decide_true, if_true]
+      rw [← List.append_assoc (AF_hdr a) a.pcr, ← List.append_assoc (AF_hdr a ++ a.pcr) a.opcr,
+        ← List.append_assoc (AF_hdr a ++ a.pcr ++ a.opcr) (AF_spl a),
+        ← List.append_assoc (AF_hdr a ++ a.pcr ++ a.opcr ++ AF_spl a) (AF_tl a)]
+      exact slice_mid _ _ _ _ _ (by simp [AF_tl_length, hpd] <;> omega) (by simp [AF_tl_length, hpd] <;> omega)
+    · have : a.private_data.length = 0 := by omega
+      simp [List.eq_nil_of_length_eq_zero this]
+  have o4 : (if decide (0 < a.private_data.length) = true then
+        2 + a.pcr.length + a.opcr.length + (AF_spl a).length + 1 + a.private_data.length
+      else 2 + a.pcr.length + a.opcr.length + (AF_spl a).length)
+      = 2 + a.pcr.length + a.opcr.length + (AF_spl a).length + (AF_tl a).length + a.private_data.length := by
+    by_cases hpd : 0 < a.private_data.length
+    · simp only [hpd, decide_true, if_true, AF_tl_length]
+    · have : a.private_data.length = 0 := by omega
+      simp only [AF_tl_length, this]; simp
+  have edrop : List.drop (2 + a.pcr.length + a.opcr.length + (AF_spl a).length + (AF_tl a).length + a.private_data.length)
+      (AF_hdr a ++ (a.pcr ++ (a.opcr ++ (AF_spl a ++ (AF_tl a ++ (a.private_data ++ T)))))) = T := by
+    rw [← List.append_assoc (AF_hdr a) a.pcr, ← List.append_assoc (AF_hdr a ++ a.pcr) a.opcr,
+        ← List.append_assoc (AF_hdr a ++ a.pcr ++ a.opcr) (AF_spl a),
+        ← List.append_assoc (AF_hdr a ++ a.pcr ++ a.opcr ++ AF_spl a) (AF_tl a),
+        ← List.append_assoc (AF_hdr a ++ a.pcr ++ a.opcr ++ AF_spl a ++ AF_tl a) a.private_data]
+    exact drop_append_len _ _ _ (by simp <;> omega)
+  simp only [AF.unpack, h0, b7, b6, b5, b4, b3, b2, b1, b0, o1, o2, epcr, eopcr, espl, o3, etl, epd, o4, edrop]
+  cases hxx : a.adaption_extension with
+  | none => simp [AF_packed, hxx]
+  | some x =>
+    have : T = Ext_bytes x ++ (List.replicate (AF_lenByte a - AF_dataLen a) (0xFF : UInt8) ++ rest) := by
+      rw [← hT]; simp [AF_extb, hxx]
+    simp only [Option.isSome_some, if_true, this, Ext_unpack_bytes x Ext.fresh _ (hx x hxx)]
+    simp [AF_packed, hxx]
+
+theorem AF_bytes_length (a : AF) : (AF_bytes a).length = AF_lenByte a + 1 := by
+  have : AF_dataLen a ≤ AF_lenByte a := by unfold AF_lenByte; split <;> omega
+  simp only [AF_bytes, List.length_append, encInt_length, List.length_replicate]
+  unfold AF_dataLen at *
+  omega
+
+theorem AF_lenByte_pos (a : AF) : 0 < AF_lenByte a := by
+  unfold AF_lenByte AF_dataLen; split <;> omega
+
+/-! ### MPEGPacket -/
+
+def Pkt_WF (p : Pkt) : Prop :=
+  p.sync < 256 ∧ p.pid < 8192 ∧ p.transport_priority < 2 ∧ p.tsc < 4 ∧ p.adaption_ctrl < 4 ∧
+  p.continuitycounter < 16 ∧ (∀ a, p.adaption_field = some a → AF_WF a)
+
+def Pkt_pidFull (p : Pkt) : Nat := p.pid + p.transport_priority * 8192 + p.pusi.toNat * 16384 + p.tei.toNat * 32768
+def Pkt_cont (p : Pkt) : Nat := p.continuitycounter + p.adaption_ctrl * 16 + p.tsc * 64
+
+def Pkt_hdr (p : Pkt) : Bytes :=
+  encInt true 1 p.sync ++ (encInt true 2 (Pkt_pidFull p) ++ encInt true 1 (Pkt_cont p))
+@[simp] theorem Pkt_hdr_length (p : Pkt) : (Pkt_hdr p).length = 4 := by simp [Pkt_hdr]
+
+def hasAF (p : Pkt) : Prop := p.adaption_ctrl = 2 ∨ p.adaption_ctrl = 3
+instance (p : Pkt) : Decidable (hasAF p) := by unfold hasAF; infer_instance
+
+/-- the adaptation bytes `MPEGPacket.pack` places after the header -/
+def Pkt_af (p : Pkt) : Bytes :=
+  if hasAF p then
+    match p.adaption_field with
+    | none => encInt true 1 0
+    | some a => AF_bytes a
+  else []
+
+/-- bytes occupied by header, adaptation field and payload -/
+def Pkt_used (p : Pkt) : Nat := 4 + (Pkt_af p).length + p.payload.length
+
+def Pkt_unstuffed (p : Pkt) : Bytes := Pkt_hdr p ++ (Pkt_af p ++ p.payload)
+
+def Pkt_bytes (p : Pkt) : Bytes :=
+  Pkt_hdr p ++ (Pkt_af p ++ (p.payload ++ List.replicate (188 - Pkt_used p) (0xFF : UInt8)))
+
+def Pkt_packed (p : Pkt) : Pkt :=
+  if hasAF p then { p with adaption_field := p.adaption_field.map AF_packed } else p
+
+theorem Pkt_bytes_length (p : Pkt) : (Pkt_bytes p).length = max 188 (Pkt_used p) := by
+  simp only [Pkt_bytes, List.length_append, Pkt_hdr_length, List.length_replicate, Pkt_used]
+  omega
+
+theorem Pkt_pack_eq' (p : Pkt) (ns : Bool) (h : Pkt_WF p) :
+    Pkt.pack p ns = (Pkt_packed p, .ok (if ns then Pkt_unstuffed p else Pkt_bytes p)) := by
+  obtain ⟨h1, h2, h3, h4, h5, h6, h7⟩ := h
+  have hfit : Fits Pkt_pack_fmt0.codes [p.sync, Pkt_pidFull p, Pkt_cont p] := by
+    simp only [Fits, Pkt_pack_fmt0, Code.bound, Pkt_pidFull, Pkt_cont, and_true]
+    cases p.pusi <;> cases p.tei <;> simp <;> omega
+  have hz := pack_u8 Pkt_pack_fmt1 rfl 0 (by omega)
+  unfold Pkt.pack
+  have e1 : p.pid + p.transport_priority * 8192 + p.pusi.toNat * 16384 + p.tei.toNat * 32768 = Pkt_pidFull p := rfl
+  have e2 : p.continuitycounter + p.adaption_ctrl * 16 + p.tsc * 64 = Pkt_cont p := rfl
+  simp only [e1, e2, structPack_eq _ _ hfit, ADAPTION_ADAPTION_ONLY, ADAPTION_PAYLOAD_AND_ADAPTION]
+  by_cases haf : hasAF p
+  · have haf' : p.adaption_ctrl = 2 ∨ p.adaption_ctrl = 3 := haf
+    simp only [haf', if_true]
+    cases hx : p.adaption_field with
+    | none =>
+      simp only [hz]
+      cases ns <;> simp [Pkt_packed, haf, hx, Pkt_bytes, Pkt_unstuffed, Pkt_hdr, Pkt_af, Pkt_used, Pkt_pack_fmt0, encCodes, Code.size] <;> (try refine ⟨?_, ?_⟩) <;> first | omega | (cases p; simp_all)
+    | some a =>
+      simp only [AF_pack_eq a (h7 a hx)]
+      cases ns <;> simp [Pkt_packed, haf, hx, Pkt_bytes, Pkt_unstuffed, Pkt_hdr, Pkt_af, Pkt_used, Pkt_pack_fmt0, encCodes, Code.size] <;> (try refine ⟨?_, ?_⟩) <;> first | omega | (cases p; simp_all)
+  · have haf' : ¬ (p.adaption_ctrl = 2 ∨ p.adaption_ctrl = 3) := haf
+    simp only [haf', if_false]
+    cases ns <;> simp [Pkt_packed, haf, Pkt_bytes, Pkt_unstuffed, Pkt_hdr, Pkt_af, Pkt_used, Pkt_pack_fmt0, encCodes, Code.size] <;> (try refine ⟨?_, ?_⟩) <;> first | omega | (cases p; simp_all)
+
+def Pkt_stuffing (p : Pkt) : Bytes := List.replicate (188 - Pkt_used p) (0xFF : UInt8)
+
+/-- what decoding the packed bytes gives: the header fields, the payload followed by the stuffing
+    (the format carries no payload length), the adaptation field as `pack` left it -/
+def Pkt_decoded (p : Pkt) : Pkt :=
+  { p with payload := if p.adaption_ctrl = 1 ∨ p.adaption_ctrl = 3 then p.payload ++ Pkt_stuffing p else [],
+           adaption_field := if hasAF p then p.adaption_field.map AF_packed else none }
+
+theorem hdr_decode (p : Pkt) (h2 : p.pid < 8192) (h3 : p.transport_priority < 2) (h4 : p.tsc < 4)
+    (h5 : p.adaption_ctrl < 4) (h6 : p.continuitycounter < 16) :
+    Pkt_pidFull p % 8192 = p.pid ∧ (Pkt_pidFull p / 32768 % 2 == 1) = p.tei ∧ (Pkt_pidFull p / 16384 % 2 == 1) = p.pusi ∧
+    Pkt_pidFull p / 8192 % 2 = p.transport_priority ∧ Pkt_cont p % 16 = p.continuitycounter ∧
+    Pkt_cont p / 16 % 4 = p.adaption_ctrl ∧ Pkt_cont p / 64 % 4 = p.tsc ∧ Pkt_pidFull p < 65536 ∧ Pkt_cont p < 256 := by
+  unfold Pkt_pidFull Pkt_cont
+  cases p.pusi <;> cases p.tei <;> simp <;> omega
+
+theorem Pkt_unpack_bytes (p t : Pkt) (h : Pkt_WF p) (hs : p.sync = 0x47)
+    (h2af : p.adaption_ctrl = 2 → p.adaption_field.isSome = true) :
+    Pkt.unpack t (Pkt_bytes p) = (Pkt_decoded p, .ok ()) := by
+  obtain ⟨h1, h2, h3, h4, h5, h6, h7⟩ := h
+  obtain ⟨d1, d2, d3, d4, d5, d6, d7, d8, d9⟩ := hdr_decode p h2 h3 h4 h5 h6
+  have h0 : structUnpackFrom Pkt_unpack_fmt0 (Pkt_bytes p) 0 = .ok [p.sync, Pkt_pidFull p, Pkt_cont p] := by
+    have hfit : Fits Pkt_unpack_fmt0.codes [p.sync, Pkt_pidFull p, Pkt_cont p] := by
+      simp [Fits, Pkt_unpack_fmt0, Code.bound]; omega
+    have := structUnpackFrom_enc0 Pkt_unpack_fmt0 [p.sync, Pkt_pidFull p, Pkt_cont p]
+      (Pkt_af p ++ (p.payload ++ Pkt_stuffing p)) hfit
+    simpa [encCodes, Pkt_unpack_fmt0, Code.size, Pkt_bytes, Pkt_hdr, Pkt_stuffing, List.append_assoc] using this
+  have hdrop4 : List.drop 4 (Pkt_bytes p) = Pkt_af p ++ (p.payload ++ Pkt_stuffing p) :=
+    drop_append_len _ _ _ (by simp)
+  have hne : ¬ (p.sync ≠ 71) := by omega
+  simp only [Pkt.unpack, h0, hne, if_false, d1, d2, d3, d4, d5, d6, d7, hdrop4, ADAPTION_PAYLOAD_AND_ADAPTION,
+    ADAPTION_ADAPTION_ONLY, ADAPTION_PAYLOAD_ONLY]
+  have hafc : p.adaption_ctrl = 0 ∨ p.adaption_ctrl = 1 ∨ p.adaption_ctrl = 2 ∨ p.adaption_ctrl = 3 := by omega
+  rcases hafc with ha | ha | ha | ha
+  · -- reserved: nothing decoded
+    simp [ha, Pkt_decoded, hasAF, hs]
+  · -- payload only
+    have : Pkt_af p = [] := by simp [Pkt_af, hasAF, ha]
+    simp [ha, Pkt_decoded, hasAF, this]
+  · -- adaptation only
+    obtain ⟨a, hx⟩ := Option.isSome_iff_exists.mp (h2af ha)
+    have : Pkt_af p = AF_bytes a := by simp [Pkt_af, hasAF, ha, hx]
+    simp only [ha, this, AF_unpack_bytes a AF.fresh _ (h7 a hx)]
+    simp [Pkt_decoded, hasAF, ha, hx]
+  · -- adaptation and payload
+    cases hx : p.adaption_field with
+    | none =>
+      have haf : Pkt_af p = encInt true 1 0 := by simp [Pkt_af, hasAF, ha, hx]
+      have hr : structUnpackFrom Pkt_unpack_fmt1 (Pkt_af p ++ (p.payload ++ Pkt_stuffing p)) 0 = .ok [0] := by
+        rw [haf]; exact read_u8 _ rfl [] _ 0 (by omega) 0 rfl
+      have hd5 : List.drop (4 + 1) (Pkt_bytes p) = p.payload ++ Pkt_stuffing p := by
+        rw [Pkt_bytes, ← List.append_assoc (Pkt_hdr p), haf]
+        exact drop_append_len _ _ _ (by simp)
+      simp only [ha, hr, hd5]
+      simp [Pkt_decoded, hasAF, ha, hx]
+      | some a =>
+      have haf : Pkt_af p = AF_bytes a := by simp [Pkt_af, hasAF, ha, hx]
+      have hL := AF_bytes_length a
+      have hpos := AF_lenByte_pos a
+      have hwf := h7 a hx
+      have hr : structUnpackFrom Pkt_unpack_fmt1 (Pkt_af p ++ (p.payload ++ Pkt_stuffing p)) 0 = .ok [AF_lenByte a] := by
+        rw [haf]
+        simp only [AF_bytes, List.append_assoc]
+        exact read_u8 _ rfl [] _ _ hwf.2.2.2.2.2.2.2.2.2.2 0 rfl
+      have hd5 : List.drop (4 + 1 + AF_lenByte a) (Pkt_bytes p) = p.payload ++ Pkt_stuffing p := by
+        rw [Pkt_bytes, ← List.append_assoc (Pkt_hdr p), haf]
+        exact drop_append_len _ _ _ (by simp [hL]; omega)
+      have hsl : slice (Pkt_bytes p) 4 (AF_lenByte a + 1 + 4) = AF_bytes a := by
+        rw [Pkt_bytes, haf]
+        exact slice_mid _ _ _ _ _ (by simp) (by simp [hL]; omega)
+      have hu := AF_unpack_bytes a AF.fresh [] hwf
+      rw [List.append_nil] at hu
+      simp only [ha, hr, hd5, hpos, if_true, hsl, hu]
+      simp [Pkt_decoded, hasAF, ha, hx]
+  
 end Acra.Lemmas.MPEGTS
